@@ -8,7 +8,7 @@ Statement checked on the files the real `ref adapt` wrote (serial, ASan/UBSan bu
   termination after pass 6).  Then, measured in the metric refine carries to the output vertices
   (`--export-metric-as`):
     (a) almost all edges have metric length in [0.5, 2.0]  (miss fraction <= MISS_MAX + MISS_SLACK/nedges),
-        and no edge at all is outside [LEN_LO_HARD, LEN_HI_HARD];
+        and no edge at all is outside LEN_HARD[dim];
     (b) the worst cell's mean-ratio quality in the metric is >= QMIN[dim];
     (c) nverts / complexity(output mesh, exported metric) lies in NPC[dim].
   `ref adapt` is then run AGAIN on the result, with the analytic metric re-evaluated at the result's vertices
@@ -30,8 +30,9 @@ Independent definitions (none of this is refine's code or refine's formula):
   * complexity: oracles.complexity3d / complexity2d (vertex quadrature of sqrt(det M)) on the OUTPUT mesh with
     the exported metric; 2-D uses the 2x2 determinant (pyio/meshgen embed a 1 in m33).
 
-Calibration, UNCHANGED tree, sanitized build, this box (see CALIBRATION below for the table and the rule that
-turned it into the constants).
+Calibration on the UNCHANGED tree with the sanitized build: see CALIBRATION below for the table of observed values
+and the rule that turned it into the constants.  Cost: the quick generator (5 scenarios, 10 adaptations) takes
+20..28 s wall at seeds 1,2,3 on this box (17..23 s CPU in `ref`, < 1 s in the oracle).
 """
 import math
 import os
@@ -41,15 +42,51 @@ from . import cli, common, meshgen, oracles, pyio
 from .common import Stream
 
 # --------------------------------------------------------------------------------------------------------------
-# CALIBRATION (filled from runs on the unchanged tree; see the table printed by /tmp/w/unit/e2e/drive.py)
+# CALIBRATION: 75 scenarios of gen_quasiunit on the UNCHANGED tree (quick seeds 1..11 + thorough seed 101),
+# sanitized serial `ref`, measured with the EXPORTED metric (the analytic metric at the output vertices gives the
+# same figures for the constant fields and figures within 0.1 for linh, where the exported field is the
+# interpolant of the coarse input mesh; the worst values below are the same with either).  out1 = adapted to default
+# termination, out2 = adapted again (-s 5).  "miss" = edges outside [0.5, 2]; info = fraction in [0.636, 1.556].
+#
+#  dim kind     metric   n  nverts     miss/edges (worst)   info>=  len range        qmin>=        nverts/complexity
+#                                      out1       out2              out1 / out2      out1  out2    out1          out2
+#  2   refine   uniform  8  692-1204   0          0         1.000   0.707-1.489      0.527 0.614   1.182-1.843   1.196-1.843
+#  2   refine   linh    10  365-1158   0          0         1.000   0.707-1.517      0.468 0.487   1.275-1.402   1.278-1.409
+#  2   refine   aniso    4  614-1184   0          0         1.000   0.707-1.555      0.555 0.517   1.309-1.490   1.309-1.490
+#  2   refine   rot      8  371-1207   2 (0.06%)  2 (0.06%) 0.999   0.531-2.075      0.254 0.250   1.252-1.441   1.288-1.441
+#  2   coarsen  all     15  136-316    0          0         0.999   0.585-1.467      0.528 0.523   1.222-1.642   1.222-1.642
+#  3   refine   uniform  1  603        0          0         0.981   0.678-1.597      0.480 0.467   2.419         2.419
+#  3   refine   linh     4  509-869    0          0         0.985   0.523-1.614      0.462 0.483   2.401-2.548   2.432-2.604
+#  3   refine   aniso    4  524-975    0          0         0.989   0.621-1.590      0.382 0.334   2.493-2.935   2.475-2.918
+#  3   refine   rot      6  465-944    10 (0.23%) 10 (0.24%) 0.993  0.380-1.607      0.339 0.418   2.562-3.320   2.545-3.339
+#  3   coarsen  uniform  2  156-183    0          0         0.980   0.526-1.414      0.468 0.506   3.303-3.498   3.303-3.454
+#  3   coarsen  linh     1  160        7 (0.86%)  7 (0.86%) 0.984   0.358-1.414      0.484 0.480   3.467         3.468
+#  3   coarsen  aniso    8  106-184    3 (0.45%)  3 (0.46%) 0.981   0.292-1.651      0.460 0.461   3.009-4.023   3.009-3.965
+#  3   coarsen  rot      4  123-191    10 (1.64%) 10 (1.69%) 0.975  0.393-1.631      0.467 0.359   3.181-4.219   3.181-4.219
+#
+#  worst over everything:  2-D miss 0.06% (2 edges), len [0.531, 2.075], qmin 0.250, nverts/complexity [1.182, 1.843]
+#                          3-D miss 1.69% (10 edges), len [0.292, 1.651], qmin 0.334, nverts/complexity [2.401, 4.219]
+#  "adapt again" stayed inside the band of the first adaptation in every scenario (same constants for both).
+#  default termination: 7..10 passes in 2-D; 3-D 7..20 passes, and 4 of 30 3-D scenarios used all 30 passes
+#  without the early exit (the result is in the bands all the same).
+#
+# rule: miss fraction <= 2 x worst observed (+2 edges absolute slack: the 3-D coarsening meshes have ~600 edges);
+#       2-D uses 0.25% (4 x observed, 2 x would be below one edge for the small meshes);
+#       hard length range = worst observed / 1.5 (short side: / 2) ; quality floor = half the worst observed;
+#       nverts/complexity in [lo / 1.5, hi x 1.5], per dimension (small 3-D meshes are boundary dominated, hence
+#       the 3-D ratio well above the asymptotic ~1.5; 2-D asymptote ~1.15).
+# teeth (scratch copies of the tree, quick seeds 1,2,3): split_ratio x3 -> flagged in every refining scenario
+# (78..92% of the edges long, ratio 0.22..0.56); collapse_ratio x0.2 -> flagged in every coarsening scenario and
+# the 3-D refining ones (7..41% short, ratio 4.3..15.9); dropping the post_max_ratio clause of ref_smooth -> NOT
+# visible here (all figures inside the unchanged tree's ranges; only the pass count grows).
 # --------------------------------------------------------------------------------------------------------------
 BAND_LO, BAND_HI = 0.5, 2.0
 INFO_LO, INFO_HI = 0.9 / math.sqrt(2.0), 1.1 * math.sqrt(2.0)
-MISS_MAX = {2: 0.05, 3: 0.05}        # allowed fraction of edges outside [0.5, 2]
+MISS_MAX = {2: 0.0025, 3: 0.035}     # allowed fraction of edges outside [0.5, 2]
 MISS_SLACK = 2.0                     # + this many edges (tiny meshes)
-LEN_LO_HARD, LEN_HI_HARD = 0.1, 4.0  # no edge at all outside
-QMIN = {2: 0.05, 3: 0.05}
-NPC = {2: (0.5, 4.0), 3: (0.5, 6.0)}   # nverts / complexity
+LEN_HARD = {2: (0.26, 3.1), 3: (0.145, 2.5)}   # no edge at all outside
+QMIN = {2: 0.125, 3: 0.165}
+NPC = {2: (0.78, 2.77), 3: (1.6, 6.3)}   # nverts / complexity
 
 
 # --------------------------------------------------------------------------------------------------------------
@@ -269,12 +306,13 @@ def judge(dim, tag, s, which_metric='exported'):
                    'range [%.3f, %.3f]); bound %.1f%% + %g edges' %
                    (tag, s['miss'], s['ne'], 100.0 * s['miss'] / max(s['ne'], 1), which_metric, BAND_LO, BAND_HI,
                     s['short'], s['long'], s['lmin'], s['lmax'], 100.0 * MISS_MAX[dim], MISS_SLACK))
-    if s['ne'] and s['lmin'] < LEN_LO_HARD:
+    lo, hi = LEN_HARD[dim]
+    if s['ne'] and not s['lmin'] >= lo:
         out.append('C03 %s: shortest edge has %s-metric length %.4f, bound >= %.3f' %
-                   (tag, which_metric, s['lmin'], LEN_LO_HARD))
-    if s['ne'] and s['lmax'] > LEN_HI_HARD:
+                   (tag, which_metric, s['lmin'], lo))
+    if s['ne'] and not s['lmax'] <= hi:
         out.append('C03 %s: longest edge has %s-metric length %.4f, bound <= %.3f' %
-                   (tag, which_metric, s['lmax'], LEN_HI_HARD))
+                   (tag, which_metric, s['lmax'], hi))
     if which_metric != 'exported':
         return out
     if not s['qmin'] >= QMIN[dim]:
